@@ -65,6 +65,7 @@ fn main() {
         "C19" => protochecks::c19(tier),
         "C07" => sim_checks::c07(tier),
         "C13" => sim_checks::c13(tier),
+        "C01dbg" => { sim_checks::debug_byz(); 0 }
         "C06dbg" => { sim_checks::debug_c06(); 0 }
         "C06" => sim_checks::c06(tier),
         "C08" => seq_full::c08(tier),
